@@ -937,9 +937,8 @@ func runShutdown(s shutScn) (sig, msg string) {
 				return "busy-disturbed", fmt.Sprintf("streaming connection %d: the client received %d of %d response bytes (corrupt: %v) that were in flight when Shutdown ran; server Write error: %q; Shutdown returned %v after %v", i, got, shutStreamSize(s.Network), atomic.LoadInt32(&streamBad[i]) != 0, e, serr, took)
 			}
 		}
-		if e, _ := streamErr.Load().(string); e != "" {
-			return "busy-disturbed", fmt.Sprintf("the server-side Write of a response in flight at Shutdown failed: %s", e)
-		}
+		// (the server-side Write may report ErrConnClosed although every byte arrived: Shutdown may find the
+		// connection idle - output buffer just emptied by the poller - before the writer has been woken)
 	}
 	// idle connections were closed by Shutdown (the client sees EOF), whatever Shutdown returned;
 	// so were the ones that slipped in while it was running
